@@ -7,7 +7,7 @@ for key in sys.argv[2:]:
     t0 = time.time()
     rep = verify.verify_function(reg, sources, key)
     print("==", key, rep.status, rep.reason, "paths", rep.paths, "obls", len(getattr(rep, "_obls", [])), "t=%.1f" % (time.time() - t0), rep.stats)
-    verify.discharge(rep)
+    verify.discharge(rep, jobs=int(os.environ.get('TV_JOBS', '1')))
     from collections import Counter
     print(Counter((o["name"], o["status"]) for o in rep.obligations))
     for o in rep.obligations:
